@@ -246,3 +246,16 @@ package main
 //@   calls Context.Err#1: requires sel == 2
 //@   calls Context.Err#1: set cerr = $r
 //@   calls PipeWriter.CloseWithError#1: requires sel == 2 ==> $0 == cerr
+
+// --------------------------------------------------------------------- C19
+// remoteClient: the client used to talk to remote cluster remoteID carries the
+// salted form of the user's token, never the token itself; on a salting error
+// no client is returned.
+//@ func remoteProxy.remoteClient property C19
+//@   ghost serr error = nil
+//@   ghost sres string = ""
+//@   calls auth.SaltToken#1: requires $0 == old(token) && $1 == remoteID
+//@   calls auth.SaltToken#1: set serr = $r1
+//@   calls auth.SaltToken#1: set sres = $r0
+//@   ensures result1 == nil ==> serr == nil && result0 != nil && result0.Arvados.ApiToken == sres
+//@   ensures result1 != nil ==> result0 == nil
